@@ -108,9 +108,16 @@ def rule_formula(ctx, repo):
             raise Unsupported("call %s" % fn)
         raise Unsupported(type(n).__name__)
 
-    try:
-        for s in f.fn.body:
+    class _Differ(Exception):
+        pass
+
+    def run_block(stmts):
+        """symbolic execution of a statement list; returns the returned value or None"""
+        nonlocal undec
+        for s in stmts:
             if isinstance(s, ast.Expr) and isinstance(s.value, ast.Constant):
+                continue
+            if isinstance(s, ast.Pass):
                 continue
             if isinstance(s, ast.Assign) and len(s.targets) == 1:
                 t = dotted(s.targets[0])
@@ -127,28 +134,51 @@ def rule_formula(ctx, repo):
                     if dotted(m["t"]) == Tf:
                         undec = "1/Tf without zero protection"
                     raise Unsupported("spdiag of %s" % src(m["t"]))
+                if isinstance(s.value, (ast.Name, ast.Attribute)) and dotted(s.value) in itf:
+                    itf.add(t)
+                    continue
+                if isinstance(s.value, (ast.Name, ast.Attribute)) and dotted(s.value) in tf_safe:
+                    tf_safe.add(t)
+                    continue
                 env[t] = ev(s.value)
                 continue
             if isinstance(s, ast.Expr) and isinstance(s.value, ast.Call):
                 m = Q.match("self.solver.linsolve($A, $B)", s.value)
                 if m is not None:      # in-place: B := A^-1 B
-                    b = dotted(m["B"])
-                    env[b] = ev(m["A"]) ** -1 * ev(m["B"])
+                    b_ = dotted(m["B"])
+                    env[b_] = ev(m["A"]) ** -1 * ev(m["B"])
                     continue
                 raise Unsupported("statement %s" % src(s))
             if isinstance(s, ast.If):
-                # dense / sparse return variants must agree
-                rs = [x for x in ast.walk(s) if isinstance(x, ast.Return)]
-                vals = [sp.expand(ev(r.value)) for r in rs]
-                if len(set(vals)) != 1:
-                    ctx.violation("C08.formula", "EIG._reduce", "dense and sparse return values differ", f.W(s))
-                    return
-                ret = vals[0]
+                # both branches are executed on copies of the state; they must agree (dense / sparse variants are the same matrix)
+                saved = dict(env)
+                r1 = run_block(s.body)
+                e1 = dict(env)
+                env.clear()
+                env.update(saved)
+                r2 = run_block(s.orelse)
+                e2 = dict(env)
+                if (r1 is None) != (r2 is None):
+                    raise Unsupported("one branch of `if %s` returns, the other does not" % src(s.test))
+                if r1 is not None:
+                    if sp.expand(r1 - r2) != 0:
+                        raise _Differ("branches of `if %s` return %s and %s" % (src(s.test), r1, r2))
+                    return r1
+                for k_ in set(e1) | set(e2):
+                    if k_ not in e1 or k_ not in e2 or sp.expand(e1[k_] - e2[k_]) != 0:
+                        raise _Differ("branches of `if %s` leave `%s` different" % (src(s.test), k_))
                 continue
             if isinstance(s, ast.Return):
-                ret = sp.expand(ev(s.value))
-                continue
+                return sp.expand(ev(s.value))
             raise Unsupported("statement %s" % type(s).__name__)
+        return None
+
+    try:
+        try:
+            ret = run_block(f.fn.body)
+        except _Differ as d_:
+            ctx.violation("C08.formula", "EIG._reduce", "dense and sparse variants differ: %s" % d_, f.W())
+            return
     except Unsupported as e:
         ctx.undecided("C08.formula", "EIG._reduce", undec or "front-end: %s" % e, f.W())
         return
